@@ -40,7 +40,7 @@ def tlc_trace(module, tracefile, invs, outdir, extra_consts=''):
         r['violated'] = m.group(1)
         ls = re.findall(r'^/\\ l = (\d+)', out, re.M)
         r['line'] = int(ls[-1]) - 1 if ls else None
-        cs = re.findall(r'^/\\ chk = (.*?)(?:\n/\\|\n\n)', out, re.M | re.S)
+        cs = re.findall(r'^/\\ (?:chk|bad) = (.*?)(?:\n/\\|\n\n)', out, re.M | re.S)
         r['chk'] = cs[-1].replace('\n', ' ')[:800] if cs else ''
     elif 'No error has been found' not in out:
         r['error'] = (re.findall(r'^Error: .*', out, re.M) or ['unknown'])[0] + ' :: ' + out[-600:]
@@ -383,7 +383,131 @@ def run_queues(pid, tier, seed):
     shutil.rmtree(rundir, ignore_errors=True)
     return 0
 
+# ---------------------------------------------------------------------------------------
+# C13 (and C20): scenarios generated by TLC, played by procx against the real binary
+# ---------------------------------------------------------------------------------------
+BIG = 2 ** 31 - 1
+
+def small_numbers(v):
+    """TLC integers are 32 bit: larger numbers travel as strings (a mechanical re-encoding)."""
+    if isinstance(v, dict):
+        return {k: small_numbers(x) for k, x in v.items() if k != 't'}
+    if isinstance(v, list):
+        return [small_numbers(x) for x in v]
+    if isinstance(v, bool):
+        return v
+    if isinstance(v, int) and abs(v) > BIG:
+        return 'n:' + str(v)
+    if isinstance(v, float):
+        return 'f:' + repr(v)
+    return v
+
+def run_scenarios(pid, tier, seed):
+    t0 = time.time()
+    rundir = f'{V}/run/{pid}-{tier}-{os.getpid()}'
+    shutil.rmtree(rundir, ignore_errors=True); os.makedirs(rundir)
+    core.build(['procx'])
+    genmod, tracemod = ('FrontGen.tla', 'FrontTrace.tla') if pid == 'C13' else ('FidelityGen.tla', 'FidelityTrace.tla')
+    invs = (['C13_NeverCrashes', 'C13_NeverWedges', 'C13_NoServerError', 'C13_InvalidRefused', 'C13_RefusedLeavesNoTrace'] if pid == 'C13'
+            else ['C20_ReturnedAsSupplied', 'C20_DerivedIdsEmbedClientId', 'C20_ServerSurvives'])
+    allsc = f'{rundir}/all.ndjson'
+    nall = gen_vectors(genmod, allsc, rundir)
+    lines = open(allsc).read().splitlines()
+    if tier == 'quick':
+        k = 3 if pid == 'C13' else 1
+        lines = [l for i, l in enumerate(lines) if i % k == seed % k]
+    scen = f'{rundir}/scenarios.ndjson'
+    open(scen, 'w').write('\n'.join(lines) + '\n')
+    meta = {}
+    for l in lines:
+        j = json.loads(l); meta[j['sid']] = j
+    obs = f'{rundir}/obs.ndjson'
+    env = dict(os.environ, VERIF_REPO=os.environ.get('VERIF_REPO', '/repo'))
+    cmd = f'{V}/build/procx -build -bin {V}/build/resonate -scenarios {scen} -out {obs} -dir {rundir}/scratch -par 12'
+    try:
+        p = subprocess.run(cmd, shell=True, capture_output=True, text=True, timeout=3000, env=env)
+    except subprocess.TimeoutExpired:
+        core.die('procx timed out')
+    if p.returncode != 0 or not os.path.exists(obs):
+        print(p.stdout[-1500:], p.stderr[-1500:]); core.die('procx failed (could the server binary be built?)')
+    # plumbing: scenario metadata onto the begin events, 32-bit numbers
+    out, nsteps, hostile_classes, samples = [], 0, {}, []
+    for l in open(obs):
+        e = json.loads(l)
+        if e['e'] == 'begin':
+            m = meta[e['sid']]
+            for k in ('ep', 'field', 'raw', 'expect', 'want', 'family'):
+                if k in m: e[k] = m[k]
+            e.pop('args', None)
+        if e['e'] == 'step':
+            nsteps += 1
+            if e.get('name') == 'hostile': hostile_classes[e['sid']] = e['class']
+        if e['e'] == 'end':
+            e['logtail'] = e.get('logtail', '')[:300]
+        e = small_numbers(e)
+        out.append(json.dumps(e))
+        if len(samples) < 4 and e['e'] == 'step' and e.get('name') == 'hostile':
+            samples.append({k: e[k] for k in ('sid', 'do', 'code', 'class', 'alive')} | {'scenario': {k: meta[e['sid']].get(k) for k in ('ep', 'field', 'raw', 'expect')}})
+    # chunks at scenario boundaries
+    chunks, cur = [], []
+    per = max(1, (len(lines) + 7) // 8)
+    count = 0
+    for l in out:
+        if l.startswith('{"e": "begin"') or '"e": "begin"' in l[:40]:
+            if count and count % per == 0 and cur:
+                chunks.append(cur); cur = []
+            count += 1
+        cur.append(l)
+    if cur: chunks.append(cur)
+    files = []
+    os.makedirs(f'{rundir}/chunks')
+    for i, c in enumerate(chunks):
+        fp = f'{rundir}/chunks/c{i}.ndjson'; open(fp, 'w').write('\n'.join(c) + '\n'); files.append(fp)
+    known = known_names()
+    with ThreadPoolExecutor(max_workers=8) as ex:
+        rs = list(ex.map(lambda a: tlc_trace(tracemod, a[1], invs, f'{rundir}/v{a[0]}', extra_consts='  Known = {' + ', '.join(f'"{k}"' for k in known) + '}\n'), enumerate(files)))
+    seen, viol = set(), None
+    for r in rs:
+        seen.update(r['seen'])
+        if r['error']:
+            print(r['error']); core.die('TLC could not validate the observations (machinery error)')
+        if r['violated'] and viol is None:
+            r['module'] = tracemod; viol = r
+    wall = time.time() - t0
+    refused = sum(1 for c in hostile_classes.values() if c == '4xx')
+    level = 'fault_enumeration' if pid == 'C13' else 'exploration'
+    cov = dict(evaluations=len(lines), distinct_nontrivial=len(lines),
+               rule=('one evaluation = one scenario of Front.tla (endpoint x field x hostile class, then the lifecycle: background cycles, kill -9, restart on the same database, more cycles) played against its own real `resonate serve` process over real HTTP/gRPC; every scenario is a distinct non-trivial input'
+                     if pid == 'C13' else
+                     'one evaluation = one scenario of Fidelity.tla (a datum of a hostile class written through one protocol and read back through both, before and after a restart)'),
+               scenarios_in_table=nall, steps=nsteps, refused=refused, accepted=len(hostile_classes) - refused,
+               samples=samples or [{'note': 'none'}], known_findings_met=sorted(seen), exhaustive=(tier == 'thorough'))
+    assumptions = ['classes of values with concrete representatives, not all byte strings', 'real process, real sockets; wall-clock margins (the sleeps of the scenarios are >= 4x the periods involved)']
+    if viol:
+        dd = save_violation(pid, viol, cmd)
+        if viol.get('line'):
+            sid = None
+            for i, l in enumerate(open(viol['trace']), 1):
+                j = json.loads(l)
+                if j['e'] == 'begin': sid = j['sid']
+                if i == viol['line']: break
+            if sid and sid in meta:
+                json.dump(meta[sid], open(f'{dd}/scenario.json', 'w'), indent=1)
+                print('scenario:', json.dumps({k: meta[sid].get(k) for k in ('sid', 'ep', 'field', 'raw', 'expect')}))
+        core.write_evidence(pid, tier, seed, level, cov, wall, 1, assumptions)
+        print_known(pid, seen)
+        print(f'invariant {viol["violated"]} violated at observation {viol["line"]}: {viol.get("chk", "")}')
+        print(f'VIOLATION property={pid} replay={dd}')
+        return 1
+    core.write_evidence(pid, tier, seed, level, cov, wall, 0, assumptions)
+    print_known(pid, seen)
+    print(f'{pid} {tier}: {len(lines)} of {nall} scenarios played against the real binary ({nsteps} steps) and accepted by TLC; {wall:.0f}s')
+    shutil.rmtree(rundir, ignore_errors=True)
+    return 0
+
 def run(pid, tier, seed):
+    if pid in ('C13', 'C20'):
+        return run_scenarios(pid, tier, seed)
     if pid == 'C12':
         return run_queues(pid, tier, seed)
     if pid in ('C15', 'C19'):
